@@ -25,6 +25,13 @@ enum class Color : u32
     RED = 0,
     BLUE = 7
 };
+enum E8 : u8  // unscoped enum with a 1-byte underlying type: converts implicitly to integral types and to bool
+{
+    E8_ZERO = 0,
+    E8_ONE = 1,
+    E8_TWO = 2,
+    E8_BIG = 250
+};
 struct ToColor  // class with a conversion operator
 {
     u32 raw;
@@ -108,6 +115,12 @@ using DST = Tn;
 #elif PAIR == 14
 using SRC = Ms;
 using DST = Tt;
+#elif PAIR == 15
+using SRC = E8;
+using DST = bool;
+#elif PAIR == 16
+using SRC = E8;
+using DST = u8;
 #else
 using SRC = float;
 using DST = float;
